@@ -9,9 +9,6 @@
  * arg cap=N caps the RTCD feature level through hook H1 (opus_verif_arch_cap).
  */
 #include "vcodec.h"
-#ifdef XIPH_OPUS_VERIF
-extern int opus_verif_arch_cap __attribute__((weak));
-#endif
 
 static void __attribute__((noinline)) paint_stack(int pat){ volatile unsigned char buf[160000]; memset((void*)buf,pat,sizeof buf); __asm__ volatile(""::"r"(buf):"memory"); }
 static void *poisoned(size_t n,int pat,vc_rng *r){ unsigned char *p=(unsigned char*)malloc(n); if(pat<0) for(size_t i=0;i<n;i++) p[i]=(unsigned char)vc_u32(r); else memset(p,pat,n); return p; }
